@@ -6,8 +6,18 @@
 // the rule's own filter), rules chained by name (the output of one matches
 // another), drop-raw rules with prefix / sub / notSub / notPrefix / notRegex
 // filters, cache on and off — plus blacklist entries and rewriters that match
-// the aggregate names, and capture routes with filters (one of them without any
-// filter, so every line the table routes is observed).
+// the aggregate names, and routes with filters (one of them without any filter,
+// so every line the table routes is observed). The routes are real routes of the
+// relay without destinations whose Dispatch is recorded (tapRoute): their filter
+// is the relay's, and so is what modRoute / Table.UpdateRoute does to it.
+//
+// Raw lines carry timestamps in every position relative to the rules' mocked
+// clock (current, on the edge of a wait window, older than every wait, years
+// old, ahead of the clock, far ahead): drop-raw withholds what the complete
+// filter matches whatever the timestamp. Between two flushes of the same rules
+// the routing table is changed (filter options of a route modified or cleared,
+// route added, route deleted) and every raw line and every aggregate is checked
+// against the filter model of the table as it is at that moment.
 //
 // Oracle: the pipeline model of the documentation (blacklist → rewriters →
 // aggregators in order, a drop-raw rule that completely matches ends the
@@ -745,7 +755,7 @@ func genOps(r *mon.Rng, c *Case, outs []string) {
 						op.Opts[opt] = r.Pick(optionValues(opt))
 					}
 				}
-				op.Cmd = r.Chance(1, 25)
+				op.Cmd = r.Chance(1, 2)
 				for _, v := range op.Opts {
 					if !safeForCommand.MatchString(v) || strings.Contains(v, "true") || strings.Contains(v, "false") {
 						op.Cmd = false // the command scanner has its own ideas about such words; C11 is not about it
@@ -806,11 +816,11 @@ func genOps(r *mon.Rng, c *Case, outs []string) {
 // execution
 
 type stats struct {
-	raw, rawBlacklisted, rawDropped, rawNearMiss, rawConsumed, rawRouteDeliveries int
-	aggExpected, aggDeliveries, aggRejections, ticks, tables                      int
-	loop, blOrRw, invalidIfValidated                                              int
+	raw, rawBlacklisted, rawDropped, rawNearMiss, rawConsumed, rawRouteDeliveries   int
+	aggExpected, aggDeliveries, aggRejections, ticks, tables                        int
+	loop, blOrRw, invalidIfValidated                                                int
 	rawClosed, rawClosedDropped, rawAhead, rawAheadDropped, tooOldModel, tooOldSeen int
-	routeOps, routeMods, routeAdds, routeDels, aggAgainAfterFlip                    int
+	routeOps, routeMods, routeModsCmd, routeAdds, routeDels, aggAgainAfterFlip      int
 }
 
 // tapRoute is a real route of the relay (its own filter, its own Update: what modRoute changes) without
@@ -925,6 +935,7 @@ func runCase(res *mon.Result, c Case, st *stats, scratch string) {
 						cmd += " " + k + "=" + op.Opts[k]
 					}
 					err = mon.Apply(tbl, cmd)
+					st.routeModsCmd++
 				} else {
 					err = tbl.UpdateRoute(key, op.Opts)
 				}
@@ -1359,7 +1370,7 @@ func closeAny(v float64, refs []float64) bool {
 
 func main() {
 	res := mon.NewResult("C11")
-	res.Rule = "tables generated from (seed,index): 2-4 aggregators (7 regex/format templates incl. self-matching, identity and chained outputs; random prefix/sub/notSub/notPrefix/notRegex; drop-raw 40%; cache on/off; all ten functions in rotation), 0-2 blacklist entries and 0-2 rewriters chosen to hit aggregate names, 2-5 routes plus 0-2 added later (real routes of the three kinds without destinations whose Dispatch is recorded; one without filter that is never changed; others incl. filters that only differ between name and whole line), strict or medium validation with ':' in some aggregate names; 1-3 rounds of 25-60 raw lines from a 45-name universe, their timestamps relative to the rules' mocked clock: ~64% in a bucket open for every rule, the rest on/behind the edge of one rule's wait window, older than every wait, much older (10 min .. 16 years), ahead of the clock (due with this or the next ticks) and far ahead (never due); each round followed by ticks that make every bucket that is not ahead of the clock due, plus a final round of ticks only; between the flushes the routing table is changed (0-2 ops before a round's raw lines, 0-1 between raw lines and ticks: modRoute/UpdateRoute of 1-2 of prefix/notPrefix/sub/notSub/regex/notRegex incl. clearing one, route added, route deleted; candidates that change which possible aggregate names the route takes are preferred; 1 in 25 mods with plain values goes through the admin command) and raw and aggregate routing is checked against the filter model on the table as it is at that moment; regenerated (<=30 attempts) until non-trivial = some aggregate name completely matches a rule's filter AND some aggregate name is blacklisted or changed by a rewriter AND >=1 raw line is consumed by a drop-raw rule AND >=1 raw line passes a drop-raw rule's cheap filters but not its complete filter AND a filtered route accepts one aggregate and rejects another; distinct = table index"
+	res.Rule = "tables generated from (seed,index): 2-4 aggregators (7 regex/format templates incl. self-matching, identity and chained outputs; random prefix/sub/notSub/notPrefix/notRegex; drop-raw 40%; cache on/off; all ten functions in rotation), 0-2 blacklist entries and 0-2 rewriters chosen to hit aggregate names, 2-5 routes plus 0-2 added later (real routes of the three kinds without destinations whose Dispatch is recorded; one without filter that is never changed; others incl. filters that only differ between name and whole line), strict or medium validation with ':' in some aggregate names; 1-3 rounds of 25-60 raw lines from a 45-name universe, their timestamps relative to the rules' mocked clock: ~64% in a bucket open for every rule, the rest on/behind the edge of one rule's wait window, older than every wait, much older (10 min .. 16 years), ahead of the clock (due with this or the next ticks) and far ahead (never due); each round followed by ticks that make every bucket that is not ahead of the clock due, plus a final round of ticks only; between the flushes the routing table is changed (0-2 ops before a round's raw lines, 0-1 between raw lines and ticks: modRoute/UpdateRoute of 1-2 of prefix/notPrefix/sub/notSub/regex/notRegex incl. clearing one, route added, route deleted; candidates that change which possible aggregate names the route takes are preferred; half of the mods whose values are plain words go through the admin command modRoute) and raw and aggregate routing is checked against the filter model on the table as it is at that moment; regenerated (<=30 attempts) until non-trivial = some aggregate name completely matches a rule's filter AND some aggregate name is blacklisted or changed by a rewriter AND >=1 raw line is consumed by a drop-raw rule AND >=1 raw line passes a drop-raw rule's cheap filters but not its complete filter AND a filtered route accepts one aggregate and rejects another; distinct = table index"
 	res.Assume("filter semantics = the documented conjunction on the metric name, evaluated with the standard library (regexp, strings); that the relay's matcher agrees is property C03")
 	res.Assume("rewriters = plain replace (max occurrences) or /regex/ replace-all, skipped when 'not' is a substring of the name (C04 checks the rewriter itself)")
 	res.Assume("Table.In is unbuffered and served by one goroutine, so two harness sentinels through it are a barrier; Snapshot() is a barrier for an aggregator")
@@ -1446,6 +1457,7 @@ func main() {
 	res.Count("too_old_counter_observed", st.tooOldSeen)
 	res.Count("route_table_changes", st.routeOps)
 	res.Count("route_filter_changes_(modRoute)", st.routeMods)
+	res.Count("route_filter_changes_through_the_admin_command", st.routeModsCmd)
 	res.Count("routes_added_between_flushes", st.routeAdds)
 	res.Count("routes_deleted_between_flushes", st.routeDels)
 	res.Count("aggregate_names_emitted_again_after_their_routing_changed", st.aggAgainAfterFlip)
